@@ -144,3 +144,54 @@ Theorem C17_prefix_few_bytes_refuted :
   c17_size (map (app [x83]) c17_plateau) = Some 1921%N.
 Proof. vm_compute. repeat split. Qed.
 Print Assumptions C17_prefix_few_bytes_refuted.
+
+(* ---------------------------------------------------------------------------------
+   The size model IS the end-to-end byte model.  Size.encode_trie (above) and the model
+   of every other property - Bits.encode_trie (creator.build at word level, every mode)
+   followed by EndToEnd.to_wire and Wire.marshal_gen, which check L3 compares byte for
+   byte with the real Marshal() on every run - were written independently.  For every
+   filter-mode trie of the builder they produce THE SAME wire record (all ten fields:
+   NodeTypeBM, Inners, ShortBM with their rank indexes, ShortSize, ShortTable,
+   BigInnerCnt, InnerPrefixes in step form, LeafPrefixes = Leaves = nil; the empty trie
+   gives the empty message on both sides).  Proofs: theories/SizeBits*Proofs.v.
+   --------------------------------------------------------------------------------- *)
+From Slim Require BitmapRank Bits EndToEnd Wire SizeBitsProofs.
+
+Theorem C17_encoders_agree :
+  forall (o : opts) (keys : list key) (T : trie),
+    build o keys None = Ok T -> o_inner o = false -> o_leaf o = false ->
+    exists m, Bits.encode_trie T = BitmapRank.Val m /\ EndToEnd.to_wire m = encode_trie T.
+Proof. exact SizeBitsProofs.built_encoders_agree. Qed.
+Print Assumptions C17_encoders_agree.
+
+(* C17's size is the length of the bytes the end-to-end model marshals *)
+Theorem C17_size_is_marshal_length :
+  forall (o : opts) (keys : list key) (T : trie) (m : Bits.msg) (s : list byte),
+    build o keys None = Ok T -> o_inner o = false -> o_leaf o = false ->
+    Bits.encode_trie T = BitmapRank.Val m ->
+    Wire.marshal_gen (EndToEnd.to_wire m) = Some s ->
+    marshal_size T = N.of_nat (length s).
+Proof. exact SizeBitsProofs.size_is_marshal_length. Qed.
+Print Assumptions C17_size_is_marshal_length.
+
+(* ... hence the size clause speaks about those bytes *)
+Theorem C17_bound_marshal_bytes :
+  forall (o : opts) (keys : list key) (T : trie) (m : Bits.msg) (s : list byte),
+    build o keys None = Ok T -> o_inner o = false -> o_leaf o = false ->
+    (N.of_nat (length keys) < 67108864)%N ->
+    Bits.encode_trie T = BitmapRank.Val m ->
+    Wire.marshal_gen (EndToEnd.to_wire m) = Some s ->
+    (N.of_nat (length s) <= 8 * N.of_nat (length keys) + 256)%N.
+Proof. exact SizeBitsProofs.bound_marshal_bytes. Qed.
+Print Assumptions C17_bound_marshal_bytes.
+
+(* non-vacuity: the example trie above, encoded by the end-to-end model and marshalled *)
+Example C17_marshal_bytes_example :
+  exists T m s, build filter_opt ex_keys None = Ok T /\
+                Bits.encode_trie T = BitmapRank.Val m /\
+                Wire.marshal_gen (EndToEnd.to_wire m) = Some s /\
+                length s = 105 /\ EndToEnd.to_wire m = encode_trie T.
+Proof.
+  eexists. eexists. eexists. split; [vm_compute; reflexivity|]. split; [vm_compute; reflexivity|].
+  split; [vm_compute; reflexivity|]. split; vm_compute; reflexivity.
+Qed.
